@@ -215,6 +215,41 @@ def one_recording(res, sp):
         res.violation("rewrite-accepted", "a later session was allowed to write into a finalized file period",
                       {"recording": sp["name"], "spec": sp, "label": "second-session"}, "all writes refused", outc)
     res.count("second_session_checked")
+    # ---- a third session: the same samples again (every such write is refused, the writer stays usable), then a
+    #      write into a free period after everything recorded, then close.  The accepted write must be published:
+    #      no tmp. file after the clean close, every sample of every session readable, the old files untouched
+    lastg = max(g0 + n for g0, n in sp["writes"])
+    per_file = max(1, sp["file_cadence_ms"] * sp["srn"] // (1000 * sp["srd"]))
+    extra = [lastg + 3 * per_file + 7, min(per_file + 3, 4000)]
+    sp3 = dict(sp, writes=[list(w) for w in sp["writes"]] + [extra], name=sp["name"] + "-third-session")
+    sp3.pop("apis", None)
+    inp3 = {"recording": sp["name"], "spec": sp3, "label": "third-session-refused-then-later-period"}
+    before = P.tree_digest(b.top)
+    outc, rc, err = P.run_writer(sp3, b.top)
+    after = P.tree_digest(b.top)
+    oc = {o["call"]: o for o in outc}
+    changed = sorted(f for f in before if P.is_final_data(f) and after.get(f) != before[f])
+    if changed:
+        res.violation("finalized-file-modified", "a finalized data file was modified or replaced by a later session", inp3,
+                      "bytes unchanged", changed)
+    left = [f for f in P.tree_files(b.top) if os.path.basename(f).startswith("tmp.")]
+    last_ok = oc.get("write%d" % (len(sp3["writes"]) - 1), {}).get("ok")
+    if not last_ok:
+        res.violation("later-period-refused", "after refused writes into finalized periods the writer refuses a write into a "
+                      "free later period", inp3, "accepted", outc[-4:])
+    elif left or not oc.get("close", {}).get("ok"):
+        res.violation("tmp-left-after-close", "a tmp. file is left after a clean close of a session that had refused writes",
+                      inp3, "no tmp. file", {"left": left, "close": oc.get("close")})
+    else:
+        try:
+            _r, seen = P.reader_pass(b.top, sp3)
+            if not (seen == P.written(sp3)):
+                res.violation("not-all-readable-after-close", "after the clean close of a later session not every accepted "
+                              "sample is readable", inp3, P.written(sp3).brief(), seen.brief())
+        except Exception as e:  # noqa
+            res.violation("reader-fails-after-close", "DigitalRFReader fails after the clean close of a later session", inp3,
+                          "all samples", repr(e)[:200])
+    res.count("third_session_checked")
     res.sample({"recording": sp["name"], "ops": b.n, "props_variant": {0: "Direct", 1: "Staged", None: "none"}[b.vp],
                 "trace_head": [P.show_op(o) for o, _ in b.ops[:12]]})
     shutil.rmtree(b.work, True)
@@ -273,6 +308,22 @@ def replay(res, rp):
     i = inp.get("crash_before_op")
     if inp.get("label") == "restart-after-kill":
         return P.replay_restart(res, rp)
+    if inp.get("label") == "third-session-refused-then-later-period":
+        base = dict(sp, writes=sp["writes"][:-1])
+        P.run_writer(base, top)
+        outc, rc, err = P.run_writer(sp, top)
+        print("later session outcomes:", [(o["call"], o["ok"]) for o in outc])
+        left = [f for f in P.tree_files(top) if os.path.basename(f).startswith("tmp.")]
+        print("tmp. files after the clean close:", left)
+        try:
+            _r, seen = P.reader_pass(top, sp)
+            print("reader sees", seen.brief(), "; written", P.written(sp).brief())
+            bad = bool(left) or not (seen == P.written(sp))
+        except Exception as e:  # noqa
+            print("reader raises", repr(e))
+            bad = True
+        print("replay verdict:", "STILL VIOLATING" if bad else "no longer violating")
+        return 1 if bad else 0
     if inp.get("label") == "second-session":
         P.run_writer(sp, top)
         before = P.tree_digest(top)
